@@ -263,8 +263,9 @@ Definition fd_ok (d : N) (size : nat) : bool :=
 Definition all_distances : list N := map N.of_nat (seq 1 256).
 Definition all_sizes : list nat := seq 0 128.
 
+(* 256 x 128 runs of the model, evaluated once by the kernel's VM when the proof term is checked *)
 Lemma fd_sweep : forallb (fun d => forallb (fd_ok d) all_sizes) all_distances = true.
-Proof. vm_compute. reflexivity. Qed.
+Proof. vm_cast_no_check (eq_refl true). Qed.
 
 Lemma fd_ok_all d size : 1 <= d <= 256 -> (size <= 127)%nat -> fd_ok d size = true.
 Proof.
